@@ -5,9 +5,12 @@
    (fLOST = 0) and orders placed = orders still travelling + orders received by the supplier (the cumulative,
    delay-line form of "received after the lead time; nothing is lost under disruptions").
    and the positional form for ORDERS: the order placed in t is the inbound order of t + L (C03_order_delay).
-   NOT proved (kept as a statement; decided by the correspondence slot by slot and by timing monitors on the
-   implementation): the positional form for SHIPMENTS under transit/receipt-pausing disruptions. *)
-From SV Require Import Sim.Model Sim.Inv_book Sim.Inv_pipe Sim.Inv_run Sim.Main Sim.Example.
+   Positional form for SHIPMENTS (Sim/ShipDelay.v), including transit- and receipt-pausing disruptions: for every good
+   network, edge and period, receipts, items held at the door and the whole inbound pipeline are those of a reference
+   delay line [dl_step] fed with the recorded shipments and the node's pause flags (a refinement); hence a shipment sent in t
+   is received in t + L when the node is not paused in t..t+L (<=, and == if it was never paused before), for
+   supplier edges (L = shipment lead time) and for the external supplier (L = order + shipment lead time). *)
+From SV Require Import Sim.Model Sim.Inv_book Sim.Inv_pipe Sim.Inv_run Sim.Main Sim.Example Sim.Single Sim.ShipDelay.
 
 Section C03.
 Variable (NW : net) (inputs : list ((N -> bool) * (N -> Q))).
@@ -41,17 +44,49 @@ Theorem C03_order_delay : forall t n p, In p (preds (C n)) -> (t + olt (C n) < l
   gq (nth (t + olt (C n)) (run NW inputs) empty_st) (fIO, p, Nd n) == gq (nth t (run NW inputs) empty_st) (fOQ, n, Nd p).
 Proof. exact (order_arrives NW inputs G). Qed.
 
-(* shipment analogue, not proved: a shipment sent to n in t is received in t + SLT(n) unless a transit- or
-   receipt-pausing disruption at n delays it (then it is received afterwards; never lost: C01_edge_conservation) *)
-Definition shipment_delay_statement : Prop :=
-  forall t n p, In p (preds (C n)) -> (t + slt (C n) < length inputs)%nat ->
-    (forall u, (t <= u <= t + slt (C n))%nat -> fst (nth u inputs (fun _ => false, fun _ => 0)) n = false) ->
-    gq (nth t (run NW inputs) empty_st) (fOS, p, Nd n) <= gq (nth (t + slt (C n)) (run NW inputs) empty_st) (fIS, n, Nd p).
+(* shipments: refinement of the per-edge state by the reference delay line (dl_recv / dl_shift / dl_trace in Sim/ShipDelay.v):
+   in each period the shipment is added at slot L, slot 0 is taken out and received together with the items held at the door
+   unless receipt is paused (then it is held), and the pipeline moves one slot unless transit is paused *)
+Theorem C03_shipment_refinement : forall t n p, In p (preds (C n)) -> (t < length inputs)%nat ->
+  gq (nth t (run NW inputs) empty_st) (fIS, n, Nd p) == snd (nth t (ship_ref NW inputs n p) dout) /\
+  gq (nth t (run NW inputs) empty_st) (fIDI, n, Nd p) == d_held (fst (nth t (ship_ref NW inputs n p) dout)) /\
+  leq (gl (nth t (run NW inputs) empty_st) (fSP, n, Nd p)) (d_pipe (fst (nth t (ship_ref NW inputs n p) dout))).
+Proof. exact (shipment_refinement NW inputs G). Qed.
+Theorem C03_external_refinement : forall t n, ext_sup (C n) = true -> (t < length inputs)%nat ->
+  gq (nth t (run NW inputs) empty_st) (fIS, n, Ext) == snd (nth t (ext_ref NW inputs n) dout) /\
+  gq (nth t (run NW inputs) empty_st) (fIDI, n, Ext) == d_held (fst (nth t (ext_ref NW inputs n) dout)) /\
+  leq (gl (nth t (run NW inputs) empty_st) (fSP, n, Ext)) (d_pipe (fst (nth t (ext_ref NW inputs n) dout))).
+Proof. exact (external_refinement NW inputs G). Qed.
+(* a shipment sent to n in t is received in t + SLT(n) if n is not transit-/receipt-paused in t .. t + SLT(n) *)
+Theorem C03_shipment_delay : forall t n p, In p (preds (C n)) -> (t + slt (C n) < length inputs)%nat ->
+  (forall u, (t <= u <= t + slt (C n))%nat -> unpaused NW inputs n u) ->
+  gq (nth t (run NW inputs) empty_st) (fOS, p, Nd n) <= gq (nth (t + slt (C n)) (run NW inputs) empty_st) (fIS, n, Nd p).
+Proof. exact (fun t n p => shipment_delay NW inputs G t n p D). Qed.
+(* and exactly that shipment if n was never paused up to t + SLT(n) *)
+Theorem C03_shipment_delay_exact : forall t n p, In p (preds (C n)) -> (t + slt (C n) < length inputs)%nat ->
+  (forall u, (u <= t + slt (C n))%nat -> unpaused NW inputs n u) ->
+  gq (nth (t + slt (C n)) (run NW inputs) empty_st) (fIS, n, Nd p) == gq (nth t (run NW inputs) empty_st) (fOS, p, Nd n).
+Proof. exact (shipment_delay_exact NW inputs G). Qed.
+Theorem C03_external_delay : forall t n, ext_sup (C n) = true -> (t + (olt (C n) + slt (C n)) < length inputs)%nat ->
+  (forall u, (t <= u <= t + (olt (C n) + slt (C n)))%nat -> unpaused NW inputs n u) ->
+  gq (nth t (run NW inputs) empty_st) (fOQ, n, Ext) <= gq (nth (t + (olt (C n) + slt (C n))) (run NW inputs) empty_st) (fIS, n, Ext).
+Proof. exact (fun t n => external_delay NW inputs G t n D). Qed.
+Theorem C03_external_delay_exact : forall t n, ext_sup (C n) = true -> (t + (olt (C n) + slt (C n)) < length inputs)%nat ->
+  (forall u, (u <= t + (olt (C n) + slt (C n)))%nat -> unpaused NW inputs n u) ->
+  gq (nth (t + (olt (C n) + slt (C n))) (run NW inputs) empty_st) (fIS, n, Ext) == gq (nth t (run NW inputs) empty_st) (fOQ, n, Ext).
+Proof. exact (external_delay_exact NW inputs G). Qed.
 End C03.
 
 Example C03_nonvacuous : good ex_net /\ dem_ok ex_inputs /\
   exists e, In e (run ex_net ex_inputs) /\ 0 < gq e (fBO, 2%N, Nd 3%N) + gq e (fBO, 3%N, Ext) /\ 0 < qsum (gl e (fSP, 3%N, Nd 2%N)) + gq e (fODI, 2%N, Nd 3%N).
 Proof. exact (conj ex_good (conj ex_dem_ok ex_nontrivial)). Qed.
+
+(* a transit pause delays a shipment by one period, a receipt pause holds an external order at the door (two-node network sd_net) *)
+Example C03_shipment_delay_nonvacuous :
+  good sd_net /\ dem_ok sd_inputs /\ 0 < gq (sd_rec 2) (fOS, 1%N, Nd 2%N) /\ gq (sd_rec 4) (fIS, 2%N, Nd 1%N) == gq (sd_rec 2) (fOS, 1%N, Nd 2%N) /\
+  ~ unpaused sd_net sd_inputs 2%N 5 /\ gq (sd_rec 6) (fIS, 2%N, Nd 1%N) < gq (sd_rec 4) (fOS, 1%N, Nd 2%N) /\
+  gq (sd_rec 7) (fIS, 2%N, Nd 1%N) == gq (sd_rec 4) (fOS, 1%N, Nd 2%N).
+Proof. destruct shipment_delay_nonvacuous as (H1 & H2 & _ & _ & _ & H6 & H7 & H8 & H9 & H10 & _). exact (conj H1 (conj H2 (conj H6 (conj H7 (conj H8 (conj H9 H10)))))). Qed.
 
 Print Assumptions C03_on_order_exact.
 Print Assumptions C03_on_order_exact_external.
@@ -59,3 +94,9 @@ Print Assumptions C03_pipeline_lengths.
 Print Assumptions C03_nothing_lost.
 Print Assumptions C03_orders_in_transit_partial.
 Print Assumptions C03_order_delay.
+Print Assumptions C03_shipment_refinement.
+Print Assumptions C03_external_refinement.
+Print Assumptions C03_shipment_delay.
+Print Assumptions C03_shipment_delay_exact.
+Print Assumptions C03_external_delay.
+Print Assumptions C03_external_delay_exact.
